@@ -579,6 +579,7 @@ class LayoutEval:
         self.cls = cls
         self.inmem = inmem     # attr -> (dtype Ty, dims [Poly])
         self.env = {}
+        self.alias = {}
 
     def ev(self, n):
         if n is None:
@@ -628,6 +629,9 @@ class LayoutEval:
                         self.env[t.id] = v
                     elif isinstance(s.value, ast.Call) and dotted(s.value.func) == "SharedMemory":
                         pass
+                    else:
+                        # aliases of a dtype (x = self.cms.dtype / np.uint32) or of a buffer (b = shm.buf)
+                        self.alias[t.id] = s.value
                     continue
                 a = self_attr(t)
                 if a and isinstance(s.value, ast.Call) and dotted(s.value.func) == "SharedMemory":
@@ -641,6 +645,10 @@ class LayoutEval:
                         buf = al["buf"]
                         start, end = Poly.const(0), None
                         owner = None
+                        if isinstance(buf, ast.Name) and buf.id in self.alias:
+                            buf = self.alias[buf.id]
+                        if isinstance(buf, ast.Subscript) and isinstance(buf.value, ast.Name) and buf.value.id in self.alias:
+                            buf = ast.Subscript(value=self.alias[buf.value.id], slice=buf.slice, ctx=ast.Load())
                         if isinstance(buf, ast.Subscript) and isinstance(buf.slice, ast.Slice):
                             owner = dotted(buf.value)
                             start = self.ev(buf.slice.lower) if buf.slice.lower is not None else Poly.const(0)
@@ -650,6 +658,11 @@ class LayoutEval:
                         else:
                             owner = dotted(buf)
                         dt = al["dtype"]
+                        if dt is None and isinstance(al["dtype_node"], ast.Name) and al["dtype_node"].id in self.alias:
+                            from .facts import _dtype
+                            al = dict(al)
+                            al["dtype_node"] = self.alias[al["dtype_node"].id]
+                            dt = _dtype(al["dtype_node"])
                         if dt is None and al["dtype_node"] is not None:
                             # self.cms.dtype -> the class's own table dtype
                             dn = al["dtype_node"]
@@ -666,9 +679,13 @@ class LayoutEval:
 
 
 def _branches(ctor, name="shared_memory"):
+    """(if-node, shared-branch statements, in-memory-branch statements) of the constructor's placement decision."""
     for s in ctor.body():
         if isinstance(s, ast.If) and isinstance(s.test, ast.Name) and s.test.id == name:
             return s, s.body, s.orelse
+        if isinstance(s, ast.If) and isinstance(s.test, ast.UnaryOp) and isinstance(s.test.op, ast.Not) \
+                and isinstance(s.test.operand, ast.Name) and s.test.operand.id == name:
+            return s, s.orelse, s.body
     return None, None, None
 
 
@@ -841,6 +858,19 @@ def rule_owner(ctx, classes=SKETCH_CLASSES):
                       and dotted(n.func.value) == "self." + which]
             dels = [self_attr(t) for n in walk_no_nested(arm) if isinstance(n, ast.Delete) for t in n.targets]
             del_lines = [n.lineno for n in walk_no_nested(arm) if isinstance(n, ast.Delete)]
+            # `for name in ("a", "b"): delattr(self, name)`  and  `delattr(self, "a")`
+            for n in walk_no_nested(arm):
+                if isinstance(n, ast.For) and isinstance(n.iter, (ast.Tuple, ast.List)) and isinstance(n.target, ast.Name) \
+                        and all(isinstance(e, ast.Constant) and isinstance(e.value, str) for e in n.iter.elts):
+                    for c in calls_in(n):
+                        if dotted(c.func) == "delattr" and len(c.args) == 2 and dotted(c.args[0]) == "self" and isinstance(c.args[1], ast.Name) \
+                                and c.args[1].id == n.target.id:
+                            dels.extend(e.value for e in n.iter.elts)
+                            del_lines.append(n.lineno)
+                elif isinstance(n, ast.Call) and dotted(n.func) == "delattr" and len(n.args) == 2 and dotted(n.args[0]) == "self" \
+                        and isinstance(n.args[1], ast.Constant):
+                    dels.append(n.args[1].value)
+                    del_lines.append(n.lineno)
             okk = bool(closes)
             ctx.ob("owner", d, closes[0] if closes else arm, "self.%s.close()" % which, "the mapping is closed", okk)
             if closes:
@@ -1262,8 +1292,15 @@ def rule_state_owner(ctx, classes=SKETCH_CLASSES):
                                 sites.append((n, obj, a))
                 if isinstance(n, ast.Call) and dotted(n.func) == "setattr" and n.args and isinstance(n.args[0], ast.Name) and n.args[0].id in ("self", "other"):
                     sites.append((n, n.args[0].id, unparse(n.args[1]) if len(n.args) > 1 else "?"))
+            inlined = getattr(meth.module.tree, "_inlined_helpers", set())
             if mname in TABLE_WRITERS:
                 bad = [s for s in sites if s[1] != "self"]
+            elif mname in inlined and mname.startswith("_") and not mname.startswith("__"):
+                # a private helper whose body was inlined at every call site the analysis follows: the rebinding is judged
+                # there, under the name of the method that calls it (a constructor may, merge() may not)
+                callers = [m2 for m2 in cls.methods.values() if m2 is not meth and any(
+                    isinstance(n, ast.Call) and isinstance(n.func, ast.Attribute) and n.func.attr == mname for n in walk_no_nested(m2.node))]
+                bad = sites if callers else []
             else:
                 bad = sites
             ctx.ob("state-owner", meth, bad[0][0] if bad else meth.node, "%s rebinds %s" % (meth.qualname, sorted({"%s.%s" % (o, a) for _, o, a in sites}) or "nothing"),
